@@ -1,6 +1,13 @@
+/-
+The line-protocol driver (DESIGN A.1): one S-expression per line in, one per line out.
+Built as a core-only `lean_exe`; imports Model + Spec only (never a proof module).
+
+Stateful: `(cfg id <cfg>)` sets the current routing table for the `(route …)` lines that follow.
+Every other operation is stateless: a handler in `Restful/Driver/<Slice>.lean` gets the parsed
+expression and answers `some line` if the operation is its own.
+-/
 import Restful.Driver.Routing
-import Restful.Spec.Admits
-import Restful.Spec.Params
+import Restful.Driver.Handlers
 open Restful Restful.Driver Restful.SExp
 
 structure DState where
@@ -12,15 +19,15 @@ def handle (st : DState) (line : String) : DState × String :=
     match decCfg c with
     | some cfg => ({ st with cfg := some cfg }, "(ok)")
     | none => (st, "(bad-cfg)")
-  | some (.list [.atom "route", .atom id, r, real]) =>
+  | some (.list (.atom "route" :: .atom id :: r :: real :: _)) =>
     match st.cfg, decReq r, decReal real with
-    | some cfg, some req, some real =>
-      let (o, tag) := routeTagged implEnv cfg req
-      let specs := specLine "WF" cfg.wfTemplates ++ specLine "C01" (Spec.c01Holds implEnv cfg req real.outcome)
-        ++ specLine "C04" (Spec.c04Holds implEnv cfg req real.outcome)
-      (st, s!"(out {id} {encOutcome o} (tag {tag}){specs})")
+    | some cfg, some req, some real => (st, routeAnswer id cfg req real)
     | _, _, _ => (st, s!"(bad-req {id})")
-  | _ => (st, "(bad-op)")
+  | some e =>
+    match statelessHandlers.findSome? (fun h => h e) with
+    | some out => (st, out)
+    | none => (st, "(bad-op)")
+  | none => (st, "(bad-syntax)")
 
 partial def loop (inp out : IO.FS.Stream) (st : DState) : IO Unit := do
   let line ← inp.getLine
